@@ -109,7 +109,7 @@ def expected_api_type(a):
         for m in members:
             t = expected_api_type(m)
             for x in (t["types"] if t["kind"] == "UnionType" else [t]):
-                if x not in flat:            # "unions ... with duplicates removed"
+                if repr(x) not in [repr(y) for y in flat]:      # duplicates removed (True and 1 differ)
                     flat.append(x)
         return {"kind": "UnionType", "types": flat}
     if k == "callable":
